@@ -12,6 +12,8 @@ mod sites;
 mod analysis;
 mod props_static;
 mod props_dynamic;
+mod props_more;
+mod smap;
 mod checks;
 
 use serde_json::{json, Value};
